@@ -57,6 +57,16 @@ def make_device(kind: str, rng=None, *, length_units="um", xi=0.5, gamma=10.0, u
         if terminals:
             terms = [P("source", points=box(0.1 * s, 4.5 * s, center=(-3.0 * s, 0))), P("drain", points=box(0.1 * s, 4.5 * s, center=(3.0 * s, 0)))]
         probe_pts = [(-2.2 * s, 1.5 * s), (2.2 * s, -1.5 * s)]
+    elif kind == "hole_from_terminal":
+        # a hole whose polygon has been a TERMINAL of another device before (the constructor marks terminal polygons
+        # `mesh = False` in place), and a second hole given with mesh=False explicitly: holes are carved all the same
+        film = P("film", points=box(7.0 * s, 5.0 * s, points=61))
+        pad = P("pad", points=box(1.6 * s, 0.7 * s, center=(-1.5 * s, 0.6 * s), points=41))
+        tdgl.Device("scratch", layer=L, film=P("f", points=box(7.0 * s, 5.0 * s)), terminals=[pad], length_units=length_units)
+        slot = pad.copy()
+        slot.name = "slot"
+        holes = [slot, P("round", points=circle(0.7 * s, points=33, center=(1.6 * s, -0.8 * s)), mesh=False)]
+        probe_pts = [(-2.5 * s, -1.5 * s), (2.5 * s, 1.5 * s)]
     elif kind == "dense_hole":
         # a densely sampled hole outline (neighbouring vertices ~2e-4 of the hole size apart): with scale = 1e-6 and
         # length_units = "m" the vertex spacing is a fraction of a nanometre
@@ -153,6 +163,12 @@ def mesh_zoo(rng, quick=True):
     # the same kind of mesh with coordinates that are small NUMBERS (a film of a few nm stated in metres): every length
     # of the mesh is far below any absolute tolerance
     rd = out[-3][1]
+    # a tiny, exactly symmetric mesh (centre + regular hexagon): its pure-Neumann matrix is EXACTLY singular for SuperLU, so
+    # the operators are built through the library's grounded fallback (repair 86941f9)
+    ang = np.arange(6) * np.pi / 3
+    hexpts = np.concatenate([[[0.0, 0.0]], np.stack([np.cos(ang), np.sin(ang)], axis=1)])
+    hextri = np.array([[0, 1 + k, 1 + (k + 1) % 6] for k in range(6)])
+    out.append(("hexagon_fan", Mesh.from_triangulation(hexpts, hextri), None))
     out.append(("mirror_image", Mesh.from_triangulation(np.asarray(rd.sites) * np.array([-1.0, 1.0]), np.asarray(rd.elements)), None))
     out.append(("clockwise_listing", Mesh.from_triangulation(np.asarray(base.sites), np.asarray(base.elements)[:, ::-1], ), None))
     out.append(("tiny_units", Mesh.from_triangulation(np.asarray(rd.sites) * 3e-9, np.asarray(rd.elements)), None))
@@ -223,12 +239,25 @@ def independent_terminals(dev):
     mesh = dev.mesh
     em = mesh.edge_mesh
     xi = dev.layer.coherence_length
+    # the boundary from the triangulation itself (an edge of exactly one triangle), lengths and centres from the site
+    # coordinates: nothing is taken from the mesh's own boundary / edge-geometry arrays
+    T = np.asarray(mesh.elements)
+    pairs = np.sort(np.concatenate([T[:, [0, 1]], T[:, [1, 2]], T[:, [2, 0]]]), axis=1)
+    uniq, cnt = np.unique(pairs, axis=0, return_counts=True)
+    bpairs = uniq[cnt == 1]
+    index_of = {(int(a), int(b)): k for k, (a, b) in enumerate(np.sort(np.asarray(em.edges), axis=1))}
+    bidx = np.array([index_of[(int(a), int(b))] for a, b in bpairs], dtype=int)
+    P_ = np.asarray(mesh.sites) * xi
+    centres = 0.5 * (P_[bpairs[:, 0]] + P_[bpairs[:, 1]])
+    lengths = np.linalg.norm(P_[bpairs[:, 0]] - P_[bpairs[:, 1]], axis=1)
+    bsite_all = np.unique(bpairs)
     out = {}
     for t in dev.terminals:
         poly = SPolygon(t.points)
-        bsites = [int(i) for i in mesh.boundary_indices if poly.contains(Point(mesh.sites[i] * xi))]
-        bedges = [int(e) for e in em.boundary_edge_indices if poly.contains(Point(em.centers[e] * xi))]
-        out[t.name] = dict(sites=np.array(bsites, dtype=int), boundary_edges=np.array(bedges, dtype=int), length=float(em.edge_lengths[bedges].sum() * xi))
+        bsites = [int(i) for i in bsite_all if poly.contains(Point(P_[i]))]
+        sel = np.array([poly.contains(Point(c_)) for c_ in centres], dtype=bool)
+        order = np.argsort(bidx[sel])
+        out[t.name] = dict(sites=np.array(bsites, dtype=int), boundary_edges=bidx[sel][order], length=float(lengths[sel].sum()))
     return out
 
 
